@@ -197,7 +197,7 @@ theorem builtin_rel (hinv : Inv5 s0 CS Γ μ st g l m out) (b : Builtin) (xs : L
     exact ⟨fun b k hm v hv => by
         obtain ⟨mv, h1, h2⟩ := hinv.relG b k hm v hv
         exact ⟨mv, h1.grow (grow_store_eq hst), h2⟩,
-      hinv.last.grow (grow_store_eq hst), hinv.hr.store_eq hst, by simp only; rw [hinv.out, ht], hinv.pool⟩
+      hinv.last.grow (grow_store_eq hst), hinv.hr.store_eq hst, by simp only; rw [hinv.out, ht], hinv.pool, hinv.mok⟩
   have hunary : b ≠ .print → (match specBuiltin b xs st with
     | .val r st' => ∃ μ' mr m' out', callBuiltin b ms m out = .ok (mr, m', out') ∧ Inv5 s0 CS Γ μ' st' g l m' out' ∧
         Grow μ st m.heap μ' st' m'.heap ∧ VRh μ' st' m'.heap r mr
